@@ -335,6 +335,6 @@ static void variants(const Plan &base, const Result &ref, std::vector<Plan> &out
     out = std::move(all);
 }
 
-static struct Reg { Reg() { register_family(Family{"life", gen, setup, finalize, nullptr, variants}); } } reg;
+static struct Reg_life { Reg_life() { register_family(Family{"life", gen, setup, finalize, nullptr, variants}); } } reg;
 
 }  // namespace xs
